@@ -51,6 +51,7 @@ var pkgAlias = map[string]string{
 	"astnorm":        V2Prefix + "pkg/astnormalization",
 	"astvalidation":  V2Prefix + "pkg/astvalidation",
 	"astminify":      V2Prefix + "pkg/astminify",
+	"astimport":      V2Prefix + "pkg/astimport",
 	"lexer":          V2Prefix + "pkg/lexer",
 	"keyword":        V2Prefix + "pkg/lexer/keyword",
 	"identkeyword":   V2Prefix + "pkg/lexer/identkeyword",
